@@ -5,6 +5,13 @@
         pool's tasks (positions into the argument list), `-` for serial
         -> `ok <flat C-order output, nan = failsafe NaN, unset = never written>` | `error <class>`
    ndindex <nx> <ny> / pairs <nx> <ny>  -> `i:j,i:j,…`
+   gridkw <deb|dc> <serial|par> <failsafe> <nx> <ny> <To> <Th> <Tf> <obs> <hist> <fut> <sched> <shift>
+        the same through `debiaserApplyKw` / `deltaChangeApplyKw` with the keyword argument `shift`
+   gridst <serial|par> <failsafe> <nx> <ny> <To> <Th> <Tf> <obs> <hist> <fut> <s0> <k> <sched>
+        the counting probe (instance state = number of calls so far, added to the result; NOT pure) through
+        `applySerialSt` / `applyParallelSt` with chunk size k and completion order `sched` of the chunks
+        -> `ok <flat output> state <s>` | `error <class>`
+   chunks <k> <n>  -> lengths of `chunksOf k (range n)`;   defchunk <n> <p> -> `defaultChunksize n p`
 -/
 import IbicusModel.Model.Proto
 import IbicusModel.Model.Grid
@@ -17,10 +24,10 @@ def nats? (s : String) : Option (List Nat) := (ints? s).map (fun l => l.map Int.
 /-- position-weighted checksum of a column -/
 def wsum (x : List Int) : Int := ((List.range x.length).zip x).foldl (fun acc p => acc + ((p.1 : Int) + 1) * p.2) 0
 
-/-- the probe location function of `harness/gridprobes.py`: markers in the first element of the driving column
-    select the failure modes (91–95, 98, 99: exceptions of various shapes — only the class name is
-    observable here, the error value is abstract in the model), otherwise an encoding of the three columns -/
-def probe (drive : List Int) (a b : List Int) : Except String (List Int) :=
+/-- the probe location function of `harness/gridprobes.py` (`encode`): markers in the first element of the driving column
+    select the failure modes (91–95, 98, 99: exceptions of various shapes — only the class name is observable here, the error
+    value is abstract in the model), otherwise an encoding of the three columns plus the keyword argument `shift` -/
+def probeShift (shift : Int) (drive : List Int) (a b : List Int) : Except String (List Int) :=
   match drive.head? with
   | some 99 => .error "ProbeError"
   | some 98 => .error "ProbeError2"
@@ -31,7 +38,17 @@ def probe (drive : List Int) (a b : List Int) : Except String (List Int) :=
   | some 91 => .error "ProbeError"
   | some 97 => .ok (List.replicate (drive.length + 1) 0)
   | some 96 => .ok [7]
-  | _ => .ok (drive.map (fun v => 1000000 * v + 1000 * wsum a + wsum b))
+  | _ => .ok (drive.map (fun v => 1000000 * v + 1000 * wsum a + wsum b + shift))
+
+def probe (drive : List Int) (a b : List Int) : Except String (List Int) := probeShift 0 drive a b
+
+def probeDebKw : LocFnKw Int Int String := fun shift o h x => probeShift shift x o h
+def probeDCKw : LocFnKw Int Int String := fun shift o h x => probeShift shift o h x
+
+/-- the counting probe of `harness/gridprobes.CountingProbe`: the number of calls so far is added to the result, and
+    incremented by every call (also by one that raises) -/
+def counting (obs hist fut : Arr3 Int) : StCell Int Int String :=
+  fun s c => (probeShift s (slice fut c.1 c.2) (slice obs c.1 c.2) (slice hist c.1 c.2), s + 1)
 
 def probeDeb : LocFn Int String := fun o h x => probe x o h
 def probeDC : LocFn Int String := fun o h x => probe o h x
@@ -55,6 +72,11 @@ def showRes (r : Except (Err String) (Arr3 (Elem Int))) : String :=
   | .ok a => "ok " ++ showList showVal (a.flatten.flatten)
   | .error e => "error " ++ showErr e
 
+def showResSt (r : Except (Err String) (Arr3 (Elem Int) × Int)) : String :=
+  match r with
+  | .ok (a, s) => "ok " ++ showList showVal (a.flatten.flatten) ++ " state " ++ toString s
+  | .error e => "error " ++ showErr e
+
 def showCells (l : List Cell) : String := showList (fun c => s!"{c.1}:{c.2}") l
 
 def step (line : String) : String :=
@@ -73,6 +95,34 @@ def step (line : String) : String :=
           | some m, "dc" => showRes (deltaChangeApply probeDC failsafe obs hist fut nx ny m)
           | _, _ => "bad-op"
       | _, _, _, _, _, _, _, _, _ => "bad-op"
+  | ["gridkw", kind, mode, fs, nx, ny, tO, tH, tF, o, h, f, sched, shift] =>
+      match nx.toNat?, ny.toNat?, tO.toNat?, tH.toNat?, tF.toNat?, ints? o, ints? h, ints? f, nats? sched, parseInt? shift with
+      | some nx, some ny, some tO, some tH, some tF, some o, some h, some f, some sched, some shift =>
+          if o.length ≠ tO * nx * ny ∨ h.length ≠ tH * nx * ny ∨ f.length ≠ tF * nx * ny then "bad-op" else
+          let obs := unflat tO nx ny o
+          let hist := unflat tH nx ny h
+          let fut := unflat tF nx ny f
+          let m? : Option Mode := if mode == "serial" then some .serial else if mode == "par" then some (.parallel sched) else none
+          match m?, kind with
+          | some m, "deb" => showRes (debiaserApplyKw probeDebKw shift (fs == "1") obs hist fut nx ny m)
+          | some m, "dc" => showRes (deltaChangeApplyKw probeDCKw shift (fs == "1") obs hist fut nx ny m)
+          | _, _ => "bad-op"
+      | _, _, _, _, _, _, _, _, _, _ => "bad-op"
+  | ["gridst", mode, fs, nx, ny, tO, tH, tF, o, h, f, s0, k, sched] =>
+      match nx.toNat?, ny.toNat?, tO.toNat?, tH.toNat?, tF.toNat?, ints? o, ints? h, ints? f, parseInt? s0, k.toNat?, nats? sched with
+      | some nx, some ny, some tO, some tH, some tF, some o, some h, some f, some s0, some k, some sched =>
+          if o.length ≠ tO * nx * ny ∨ h.length ≠ tH * nx * ny ∨ f.length ≠ tF * nx * ny then "bad-op" else
+          let st := counting (unflat tO nx ny o) (unflat tH nx ny h) (unflat tF nx ny f)
+          if mode == "serial" then showResSt (applySerialSt st (fs == "1") tF nx ny s0)
+          else if mode == "par" then showResSt (applyParallelSt st (fs == "1") tF nx ny s0 k sched)
+          else "bad-op"
+      | _, _, _, _, _, _, _, _, _, _, _ => "bad-op"
+  | ["chunks", k, n] => match k.toNat?, n.toNat? with
+      | some k, some n => showList toString ((chunksOf k (List.range n)).map List.length)
+      | _, _ => "bad-op"
+  | ["defchunk", n, p] => match n.toNat?, p.toNat? with
+      | some n, some p => toString (defaultChunksize n p)
+      | _, _ => "bad-op"
   | ["ndindex", nx, ny] => match nx.toNat?, ny.toNat? with
       | some nx, some ny => showCells (ndindex nx ny)
       | _, _ => "bad-op"
